@@ -18,12 +18,14 @@ import (
 	"strconv"
 	"strings"
 	"sync"
+	"sync/atomic"
 	"time"
 
 	. "verifharness/hlib"
 
 	"github.com/cnotch/ipchub/av/codec"
 	"github.com/cnotch/ipchub/av/codec/aac"
+	"github.com/cnotch/ipchub/av/format/hls"
 	"github.com/cnotch/ipchub/config"
 	"github.com/cnotch/ipchub/media"
 	hlssvc "github.com/cnotch/ipchub/service/hls"
@@ -318,5 +320,95 @@ func probeNoHls(c *Ctx) {
 				Impl: fmt.Sprintf("status=%d panic=%q", code, pan), Spec: "404 not found",
 				Detail: "HLS request for a registered stream that has no HLS output (H.265)"})
 		}
+	}
+}
+
+// stressPlaylist: playlists are requested while segments roll over (a long token only stretches
+// the rendering so that roll-overs fall inside it).  Every served playlist must be consistent:
+// three entries, consecutive numbers, MEDIA-SEQUENCE = first, TARGETDURATION ≥ every duration,
+// every entry's duration and URI those of its own sequence number.
+func stressPlaylist(c *Ctx) {
+	const sp = "/live/stress"
+	uriOf := func(seq int) string { return "/streams" + sp + "/" + strconv.Itoa(seq) + ".ts" }
+	durOf := func(seq int) float64 { return 2.0 + float64(seq%5) + 0.25 }
+	pl := hls.NewPlaylist()
+	seq := 0
+	add := func() {
+		seq++
+		pl.VerifAddSegment(seq, durOf(seq), uriOf(seq), []byte{0x47, byte(seq)})
+	}
+	for seq < 3 {
+		add()
+	}
+	token := strings.Repeat("k", 1<<19)
+	var stop int32
+	var wg sync.WaitGroup
+	wg.Add(1)
+	go func() {
+		defer wg.Done()
+		for atomic.LoadInt32(&stop) == 0 {
+			add()
+			time.Sleep(50 * time.Microsecond)
+		}
+	}()
+	rounds := c.Budget(25, 200)
+	bad := ""
+	for i := 0; i < rounds && bad == ""; i++ {
+		func() {
+			defer func() {
+				if r := recover(); r != nil {
+					bad = fmt.Sprintf("Playlist.M3u8 panicked: %v", r)
+				}
+			}()
+			b, err := pl.M3u8(token)
+			if err != nil {
+				bad = "M3u8 failed although three segments are listed: " + err.Error()
+				return
+			}
+			target, mediaSeq := -1, -1
+			var seqs []int
+			var durs []float64
+			lines := strings.Split(string(b), "\n")
+			for j := 0; j < len(lines); j++ {
+				ln := lines[j]
+				switch {
+				case strings.HasPrefix(ln, "#EXT-X-TARGETDURATION:"):
+					target, _ = strconv.Atoi(strings.TrimPrefix(ln, "#EXT-X-TARGETDURATION:"))
+				case strings.HasPrefix(ln, "#EXT-X-MEDIA-SEQUENCE:"):
+					mediaSeq, _ = strconv.Atoi(strings.TrimPrefix(ln, "#EXT-X-MEDIA-SEQUENCE:"))
+				case strings.HasPrefix(ln, "#EXTINF:") && j+1 < len(lines):
+					d, _ := strconv.ParseFloat(strings.TrimSuffix(strings.TrimPrefix(ln, "#EXTINF:"), ","), 64)
+					durs = append(durs, d)
+					j++
+					u := strings.TrimSuffix(lines[j], "?token="+token)
+					n, _ := strconv.Atoi(strings.TrimSuffix(strings.TrimPrefix(u, "/streams"+sp+"/"), ".ts"))
+					seqs = append(seqs, n)
+				}
+			}
+			switch {
+			case len(seqs) != 3:
+				bad = fmt.Sprintf("%d entries listed, want 3", len(seqs))
+			case mediaSeq != seqs[0]:
+				bad = fmt.Sprintf("EXT-X-MEDIA-SEQUENCE %d but the first listed segment is %d", mediaSeq, seqs[0])
+			case seqs[1] != seqs[0]+1 || seqs[2] != seqs[1]+1:
+				bad = fmt.Sprintf("listed sequence numbers %v are not consecutive", seqs)
+			default:
+				for k, d := range durs {
+					if float64(target) < d {
+						bad = fmt.Sprintf("EXT-X-TARGETDURATION %d below listed duration %.3f", target, d)
+					} else if d != durOf(seqs[k]) {
+						bad = fmt.Sprintf("segment %d listed with duration %.3f, produced with %.3f", seqs[k], d, durOf(seqs[k]))
+					}
+				}
+			}
+		}()
+		c.Eval(fmt.Sprintf("stress-m3u8-%d", i), true)
+	}
+	atomic.StoreInt32(&stop, 1)
+	wg.Wait()
+	c.CountN("stress-playlists-served-during-rollover", rounds)
+	if bad != "" {
+		c.Find(Finding{Kind: "oracle", Class: "playlist-torn-by-concurrent-rollover", Case: "stress m3u8 during rollover", Impl: bad,
+			Spec: "every served playlist lists three consecutive complete segments consistently", Detail: "Playlist.M3u8 concurrent with addSegment"})
 	}
 }
